@@ -149,25 +149,25 @@ end Codec
 
 namespace Codec
 /-! ### the Go constants the model refers to (if one changes in /repo these stop being `rfl`) -/
-@[simp] theorem c_paramHeaderLength : Gen.paramHeaderLength = 4 := rfl
-@[simp] theorem c_chunkHeaderSize : Gen.chunkHeaderSize = 4 := rfl
-@[simp] theorem c_errorCauseHeaderLength : Gen.errorCauseHeaderLength = 4 := rfl
-@[simp] theorem c_initChunkMinLength : Gen.initChunkMinLength = 16 := rfl
-@[simp] theorem c_initOptionalVarHeaderLength : Gen.initOptionalVarHeaderLength = 4 := rfl
-@[simp] theorem c_packetHeaderSize : Gen.packetHeaderSize = 12 := rfl
-@[simp] theorem c_selectiveAckHeaderSize : Gen.selectiveAckHeaderSize = 12 := rfl
-@[simp] theorem c_forwardTSNStreamLength : Gen.forwardTSNStreamLength = 4 := rfl
-@[simp] theorem c_newCumulativeTSNLength : Gen.newCumulativeTSNLength = 4 := rfl
-@[simp] theorem c_iForwardTSNEntryLength : Gen.iForwardTSNEntryLength = 8 := rfl
-@[simp] theorem c_maxIForwardTSNStreams : Gen.maxIForwardTSNStreams = 8190 := rfl
-@[simp] theorem c_outResetOffset : Gen.paramOutgoingResetRequestStreamIdentifiersOffset = 12 := rfl
-@[simp] theorem c_payloadDataHeaderSize : Gen.payloadDataHeaderSize = 12 := rfl
-@[simp] theorem c_iDataHeaderSize : Gen.iDataHeaderSize = 16 := rfl
-@[simp] theorem c_cumulativeTSNAckLength : Gen.cumulativeTSNAckLength = 4 := rfl
-@[simp] theorem c_hmacSHA128 : Gen.hmacSHA128 = 1 := rfl
-@[simp] theorem c_hmacSHA256 : Gen.hmacSHA256 = 3 := rfl
-@[simp] theorem c_maskE : Gen.payloadDataEndingFragmentBitmask = 1 := rfl
-@[simp] theorem c_maskB : Gen.payloadDataBeginingFragmentBitmask = 2 := rfl
-@[simp] theorem c_maskU : Gen.payloadDataUnorderedBitmask = 4 := rfl
-@[simp] theorem c_maskI : Gen.payloadDataImmediateSACK = 8 := rfl
+@[simp] theorem c_paramHeaderLength : Gen.paramHeaderLength = 4 := by decide
+@[simp] theorem c_chunkHeaderSize : Gen.chunkHeaderSize = 4 := by decide
+@[simp] theorem c_errorCauseHeaderLength : Gen.errorCauseHeaderLength = 4 := by decide
+@[simp] theorem c_initChunkMinLength : Gen.initChunkMinLength = 16 := by decide
+@[simp] theorem c_initOptionalVarHeaderLength : Gen.initOptionalVarHeaderLength = 4 := by decide
+@[simp] theorem c_packetHeaderSize : Gen.packetHeaderSize = 12 := by decide
+@[simp] theorem c_selectiveAckHeaderSize : Gen.selectiveAckHeaderSize = 12 := by decide
+@[simp] theorem c_forwardTSNStreamLength : Gen.forwardTSNStreamLength = 4 := by decide
+@[simp] theorem c_newCumulativeTSNLength : Gen.newCumulativeTSNLength = 4 := by decide
+@[simp] theorem c_iForwardTSNEntryLength : Gen.iForwardTSNEntryLength = 8 := by decide
+@[simp] theorem c_maxIForwardTSNStreams : Gen.maxIForwardTSNStreams = 8190 := by decide
+@[simp] theorem c_outResetOffset : Gen.paramOutgoingResetRequestStreamIdentifiersOffset = 12 := by decide
+@[simp] theorem c_payloadDataHeaderSize : Gen.payloadDataHeaderSize = 12 := by decide
+@[simp] theorem c_iDataHeaderSize : Gen.iDataHeaderSize = 16 := by decide
+@[simp] theorem c_cumulativeTSNAckLength : Gen.cumulativeTSNAckLength = 4 := by decide
+@[simp] theorem c_hmacSHA128 : Gen.hmacSHA128 = 1 := by decide
+@[simp] theorem c_hmacSHA256 : Gen.hmacSHA256 = 3 := by decide
+@[simp] theorem c_maskE : Gen.payloadDataEndingFragmentBitmask = 1 := by decide
+@[simp] theorem c_maskB : Gen.payloadDataBeginingFragmentBitmask = 2 := by decide
+@[simp] theorem c_maskU : Gen.payloadDataUnorderedBitmask = 4 := by decide
+@[simp] theorem c_maskI : Gen.payloadDataImmediateSACK = 8 := by decide
 end Codec
